@@ -340,8 +340,14 @@ func countCases(big bool) []ccase {
 			}
 		}
 		for _, v := range countVariants(1024) {
-			if v.box == "stsc" || v.box == "subs" || v.box == "sgpd" || (v.box == "trun" && v.tag == "v0f000") {
+			if v.box == "stsc" || (v.box == "trun" && v.tag == "v0f000") {
 				emit(fmt.Sprintf("%s/%s/k1024", v.box, v.tag), v.bytes, v.nest)
+			}
+		}
+		// the fuel-loop models (subs, sgpd) re-measure the body at every read: keep their tables short
+		for _, v := range countVariants(96) {
+			if v.box == "subs" || v.box == "sgpd" {
+				emit(fmt.Sprintf("%s/%s/k96", v.box, v.tag), v.bytes, v.nest)
 			}
 		}
 	}
@@ -424,6 +430,8 @@ func entryCount(b mp4.Box) int {
 		return len(t.Entries)
 	case *mp4.SidxBox:
 		return len(t.SidxRefs)
+	case *mp4.SgpdBox:
+		return len(t.SampleGroupEntries)
 	case *mp4.PsshBox:
 		return len(t.KIDs)
 	case *mp4.SsixBox:
@@ -458,22 +466,11 @@ func countJob(data []byte, sr bool) string {
 }
 
 var modelled = map[string]bool{"trun": true, "stts": true, "ctts": true, "stsc": true, "stsz": true, "stco": true, "co64": true,
-	"stss": true, "sdtp": true, "saiz": true, "saio": true, "senc": true, "sbgp": true, "subs": true, "elst": true, "tfra": true, "sidx": true,
+	"stss": true, "sdtp": true, "saiz": true, "saio": true, "senc": true, "sbgp": true, "subs": true, "elst": true, "tfra": true, "sidx": true, "sgpd": true,
 	"pssh": true, "ssix": true, "hint": true, "leva": true}
 
 func isModelled(c ccase) bool {
-	if len(c.data) < 16 {
-		return false
-	}
-	n := string(c.data[4:8])
-	if modelled[n] {
-		return true
-	}
-	hl := 8
-	if binary.BigEndian.Uint32(c.data) == 1 {
-		hl = 16
-	}
-	return n == "sgpd" && len(c.data) >= hl+8 && string(c.data[hl+4:hl+8]) == "alst"
+	return len(c.data) >= 16 && modelled[string(c.data[4:8])]
 }
 
 // corrCounts: C lines (cases the Coq prologue models predict) + FAIL lines for direct property failures
